@@ -283,10 +283,13 @@ pub fn random_cfg(r: &mut StdRng, run: u64) -> PoolCfg {
 
 pub fn random_fees(r: &mut StdRng) -> [u128; 3] {
     const ONE: u128 = 1_000_000_000_000_000_000;
-    match r.gen_range(0..6) {
+    match r.gen_range(0..8) {
         0 => [0, 0, 0],
         1 => [1_000_000_000_000_000, 2_000_000_000_000_000, 0],
         2 => [ONE / 10, ONE / 5, ONE / 20],
+        // one fee of the three switched off, the others on (each ledger has its own code path)
+        3 => [0, ONE / 300, ONE / 500],
+        4 => [ONE / 700, 0, ONE / 300],
         _ => {
             let p = gen::share_atomics(r, ONE / 3);
             let sw = gen::share_atomics(r, ONE / 3);
